@@ -51,6 +51,7 @@ func tickerHugeScenario(r *R) {
 		func() {
 			defer func() {
 				if p := recover(); p != nil {
+					passThrough(p)
 					if p == sim.Killed {
 						panic(p)
 					}
@@ -283,6 +284,7 @@ func tickerScenario(r *R) {
 		func() {
 			defer func() {
 				if p := recover(); p != nil {
+					passThrough(p)
 					if p == sim.Killed {
 						panic(p)
 					}
@@ -383,6 +385,7 @@ func tickerScenario(r *R) {
 				func() {
 					defer func() {
 						if p := recover(); p != nil {
+							passThrough(p)
 							if p == sim.Killed {
 								panic(p)
 							}
